@@ -623,7 +623,12 @@ func (c *Checked) checkErrorFacts(i int, op Op, res *OpResult, evs []Event) {
 			if op.Kind == OpMalformed {
 				what = op.Mal.String()
 			}
-			c.viol(i, "api-panic@"+digFrame(f.EscStack), fmt.Sprintf("%s panicked: %s", what, firstLine(f.EscText)), "C14")
+			props := []string{"C14"}
+			if len(c.rejKeys) > 0 {
+				// "a rejected Provide or Decorate ... causes no later error or panic"
+				props = append(props, "C06")
+			}
+			c.viol(i, "api-panic@"+digFrame(f.EscStack), fmt.Sprintf("%s panicked: %s", what, firstLine(f.EscText)), props...)
 		}
 		return
 	}
@@ -1014,11 +1019,11 @@ func (c *Checked) checkGroupArg(i int, who string, cons Consumer, p LeafParam, a
 		}
 		for _, n := range feeders {
 			if !builtNow[n.Fn] {
-				c.viol(i, "feeder-not-executed", fmt.Sprintf("%s: visible feeder f%d has not been executed successfully when the consumer runs", who, n.Fn), "C10", "C03", "C07")
+				c.viol(i, "feeder-not-executed", fmt.Sprintf("%s: visible feeder f%d has not been executed successfully when the consumer runs", who, n.Fn), asKeyProps(p.Key, "C10", "C03", "C07")...)
 			}
 		}
 		if !eqI64(got, want) {
-			c.viol(i, "wrong-group-content", fmt.Sprintf("%s: expected members %v of %d visible feeders, received %s", who, want, len(feeders), c.describeSerials(got)), "C10", "C01")
+			c.viol(i, "wrong-group-content", fmt.Sprintf("%s: expected members %v of %d visible feeders, received %s", who, want, len(feeders), c.describeSerials(got)), asKeyProps(p.Key, "C10", "C01")...)
 		}
 		return
 	}
@@ -1499,4 +1504,13 @@ func (c *Checked) checkOwnResultFromCallback(i int, e *Event, before []Event) {
 	if len(got) != 1 || len(want) != 1 || got[0] != want[0] {
 		c.viol(i, "own-result-from-callback", fmt.Sprintf("%s f%d returned %v for %s; a request for that key issued from its callback received %s", f.Role, e.Fn, want, k, c.describeSerials(got)), "C12", "C02", "C01")
 	}
+}
+
+// asKeyProps: a group of an interface type exists through As registrations
+// only; getting its content wrong is also a key-identity matter (C09).
+func asKeyProps(k Key, props ...string) []string {
+	if IsIface(k.T) {
+		return append(props, "C09")
+	}
+	return props
 }
